@@ -195,9 +195,8 @@ def _detailed_tag_parser(text: str, lineno: int, start_index: int) -> Token:
                 take_char()  # }
                 break
             else:
-                # False alarm, just a string
-                content = take_until_any(QUOTE_CHARS)
-                result_content.append(content)
+                # False alarm, just a percent sign
+                result_content.append(take_char())
                 continue
 
         # Take regular content until we hit a quote or potential closing tag
